@@ -383,12 +383,16 @@ class Text(Input):
                         verif.util.error("Incorrect number of columns (expecting %d) in row '%s'"
                               % (len(header), rowstr.strip()))
                     if "date" in indices:
-                        date = int(self._clean(row[indices["date"]]))
-                        unixtime = verif.util.date_to_unixtime(date)
+                        date = self._clean(row[indices["date"]])
                         add = 0
                         if "hour" in indices:
                             add = (self._clean(row[indices["hour"]]))*3600
-                        unixtime = unixtime + add
+                        if np.isnan(date) or np.isnan(add):
+                            # A missing value in the date (or hour) column is a missing time, as
+                            # a missing value in the unixtime column is
+                            unixtime = np.nan
+                        else:
+                            unixtime = verif.util.date_to_unixtime(int(date)) + add
                     elif "unixtime" in indices:
                         unixtime = self._clean(row[indices["unixtime"]])
                     self._times.add(unixtime)
